@@ -13,7 +13,7 @@ TL == TraceLines[tid].ev
 TConfigs == {}
 TInit == /\ tid \in 1..Len(TraceLines) /\ l = 1 /\ o = [op |-> "init"] /\ pcur = 0
          /\ cfg = TraceLines[tid].cfg /\ ph = "idle" /\ np = 0 /\ cur = 0 /\ P = [p \in Players |-> NoP] /\ bound = NoBound
-         /\ vol = Vol0 /\ ending = FALSE /\ evs = {} /\ act = [op |-> "init"] /\ nops = 0 /\ nadv = 0 /\ ngames = 0
+         /\ vol = Vol0 /\ ending = FALSE /\ evs = {} /\ act = [op |-> "init"] /\ nops = 0 /\ nadv = 0 /\ ngames = 0 /\ bops = 0
 \* the achievement's own transition table is not part of the statement: the new state is taken from the log
 ObsAch(e) == IF cur \in 1..Len(e.pl) THEN e.pl[cur].ach ELSE "none"
 TStep(e) ==
@@ -44,14 +44,14 @@ NPl == IF Seen THEN Len(o.pl) ELSE 0
 \* exactly what they were (the model's P[q] for q # pcur is unchanged by construction: Players!Frame)
 FrameOK == Seen /\ o.op \notin {"newgame"} =>
               \A q \in 1..NPl : (q # pcur /\ q <= np /\ ~(o.op = "addplayer" /\ q = np)) => o.pl[q] = P[q]
+SameLive(a, b) == /\ [a EXCEPT !.tick = 0] = [b EXCEPT !.tick = 0]
+                  /\ (b.g2 => a.tick = b.tick)        \* the tick count of an unloaded timer is nobody's state
 \* FreshGame: a new game / a joining player starts from the configured initial values, nothing of an earlier game shows
-FreshOK == Seen => /\ (o.op = "newgame" => NPl = 1 /\ o.pl[1] = InitP /\ o.live = Live)
+FreshOK == Seen => /\ (o.op = "newgame" => NPl = 1 /\ o.pl[1] = InitP /\ SameLive(o.live, Live))
                    /\ (o.op = "addplayer" => NPl = np /\ o.pl[np] = P[np])
                    /\ (ph = "idle" => NPl = 0 /\ o.live.g1 = FALSE /\ o.live.g2 = FALSE)
 \* Restore: when a ball has just started for cur, the devices show what cur owned, and cur's record is what was saved
 BallStarted == o.op = "turnstart" \/ (o.op \in {"ballend", "endgame"} /\ ph = "ball")
-SameLive(a, b) == /\ [a EXCEPT !.tick = 0] = [b EXCEPT !.tick = 0]
-                  /\ (b.g2 => a.tick = b.tick)        \* the tick count of an unloaded timer is nobody's state
 RestoreOK == Seen /\ BallStarted => NPl = np /\ o.pl[cur] = P[cur] /\ SameLive(o.live, Live)
 \* VarEvent: the real (value or change non-zero) player_<var> events are exactly the model's, each once
 RealEvs == SelectSeq(o.evs, LAMBDA x : x[4] # 0 \/ x[2] # x[3])
